@@ -601,10 +601,19 @@ def _run_diff(a, b):
 def op_run(case, pm):
     src = get_src(case)
     text = src
+    if sys.version_info[:2] == (3, 10):
+        # CPython 3.10 does not set up __annotations__ when the only annotated assignments of a module / class body sit inside a match statement:
+        # the *original* raises NameError there, an output without the annotation does not. Not the minifier's doing.
+        try:
+            t310 = ast.parse(src)
+            if any(isinstance(n, ast.Match) and any(isinstance(m, ast.AnnAssign) for m in ast.walk(n)) for n in ast.walk(t310)):
+                return {'status': 'skip', 'reason': 'CPython 3.10 bug: annotated assignment inside match'}
+        except Exception:
+            pass
     a = _run_simple(text, 'prog.py')
     if a['outcome'].startswith('compile-error'):
         return {'status': 'skip', 'reason': 'uncompilable here'}
-    if any(m in a['stdout'] for m in _REFLECTIVE + (("<class '__main__.",) if PY2 else ())):      # python 2 has no qualified names: a local class prints like a global one
+    if any(m in a['stdout'] for m in _REFLECTIVE + (("<class '__main__.", '__main__.') if PY2 else ())):      # python 2 has no qualified names: a local class prints like a global one
         return {'status': 'skip', 'reason': 'reflective output'}
     a2 = _run_simple(text, 'prog.py')
     if _run_diff(a, a2):
